@@ -4,7 +4,7 @@ PROP = dict(
     module="JadeModel.Props.C03", ns="Jade.C03",
     required=["C03_rows_equal_reference", "C03_classification", "C03_schedule_independent", "C03_rows_agree",
               "C03_finished_row_real", "C03_rows_stay", "C03_complete_once", "C03_queue_rows_eq_ref",
-              "C03_queue_independent_of_schedule", "C03_queue_one_row_per_job", "C03_queue_drains", "C03_summary_tally"],
+              "C03_queue_independent_of_schedule", "C03_local_equals_hpc", "C03_queue_one_row_per_job", "C03_queue_drains", "C03_summary_tally"],
     suites=["system", "queue", "tally"],
     level_text="Machine-checked: (1) system model, ALL scenarios and ALL op sequences (any batching the C07 guard admits, any "
                "node limit, any interleaving of submitters and nodes, kills and write failures too): every row ever on disk "
@@ -12,7 +12,7 @@ PROP = dict(
                "invariants (OutcomeA/OutcomeB, by induction over the 29 operations) + a pure graph lemma (local consistency "
                "implies the reference outcome, by induction on rank); hence independence of schedule, batching and node "
                "limits; (2) node level / local mode (real JobQueue algorithm): a drained queue has exactly one row per job, "
-               "equal to the reference, for every poll schedule and worker count; (3) summary tally (C20). "
+               "equal to the reference, for every poll schedule and worker count, and that reference IS the system-level one (bridge lemma), so local mode and HPC mode record the same outcome for every job; (3) summary tally (C20). "
                "PARTIAL for 'no missing job at completion' in HPC mode: the decision 'all done' is proved to need every job "
                "done and a quiescent round is proved to submit or complete (C05), but that a fault-free run never takes the "
                "forced-completion branch with an unfinished job is decided by the direct oracle on real executions only.",
